@@ -1,11 +1,11 @@
 INIT Init
 NEXT Next
-CONSTANTS Alpha = {48,49,57,46,101,45,120}
- LMax = 5
+CONSTANTS Alpha = {48,49,50,57,46,101,45}
+ LMax = 4
  K = 2
  UBits = 8
  MaxFracP = 2
- Variant = "wrap"
+ Variant = "macro_bound"
  EmitPaths = FALSE
 INVARIANTS MacroAgrees Refines MemSafe Terminates EmitPath
 CHECK_DEADLOCK FALSE
